@@ -7,10 +7,10 @@ Inductive lout := LO1 (p : pout) | LO2 (p : pout2).
 
 Definition check_with (g1 g2 : verdict -> bool) (x : lcase * lout) : Z :=
   match x with
-  | (L1 pc, LO1 p) => code (corr_exact pc p) (g1 (judge pc p))
+  | (L1 pc, LO1 p) => code (corr_ops pc p) (g1 (judge pc p))
   | (L2 pc, LO2 p) =>
       match model_of_id (pc_model pc) with
-      | Some m => code (match run_pcase2 pc with Some mo => pout2_eqb mo p | None => false end)
+      | Some m => code (match run_pcase2 pc with Some mo => pout2_ops_eqb mo p | None => false end)
                        (g2 (judge pc (decode_pout2 pc m p)) &&
                         (* the data pins may idle high before the first word *)
                         g2 (judge pc (decode_pout2_from (lines_high (bus_width pc)) pc m p)))
